@@ -58,9 +58,10 @@ class EmuRun:
         return ls[:n]
 
 
-def ovniemu(bdir, tracedir, args=("-l",), timeout=60, env=None, fsize_blocks=None):
+def ovniemu(bdir, tracedir, args=("-l",), timeout=60, env=None, fsize_blocks=None, nofile=None):
     """fsize_blocks: run with a file size limit of that many 512-byte blocks and SIGXFSZ ignored, so that
-    writes beyond it fail with EFBIG (as on a full disk or an exhausted quota)"""
+    writes beyond it fail with EFBIG (as on a full disk or an exhausted quota);
+    nofile: run with that many file descriptors at most (ulimit -n)"""
     e = {"OVNI_CONFIG_DIR": empty_cfg(), "ASAN_OPTIONS": "detect_leaks=0",
          "UBSAN_OPTIONS": "print_stacktrace=1"}
     if env:
@@ -68,6 +69,8 @@ def ovniemu(bdir, tracedir, args=("-l",), timeout=60, env=None, fsize_blocks=Non
     cmd = [core.tool(bdir, "ovniemu")] + list(args) + [tracedir]
     if fsize_blocks is not None:
         cmd = ["sh", "-c", 'trap "" XFSZ; ulimit -f %d; exec "$@"' % fsize_blocks, "sh"] + cmd
+    if nofile is not None:
+        cmd = ["sh", "-c", 'ulimit -n %d; exec "$@"' % nofile, "sh"] + cmd
     rc, out, err = core.run(cmd, timeout=timeout, env=e)
     return EmuRun(rc, out, err)
 
